@@ -74,6 +74,10 @@ class State:
 _ref_counter = [0]
 
 
+def reset_refs():
+    _ref_counter[0] = 0
+
+
 def new_ref() -> int:
     _ref_counter[0] += 1
     return _ref_counter[0]
